@@ -47,6 +47,9 @@ pub struct CapiOpts {
     pub skip_end: bool,
     /// call `lol_html_take_last_error` twice after a failure
     pub double_take_error: bool,
+    /// before anything else a selector parse fails and its error is NOT taken (the message of a later
+    /// failure must be that failure's own)
+    pub untaken_selector_error: bool,
 }
 
 impl CapiOpts {
@@ -58,6 +61,7 @@ impl CapiOpts {
             late_str_free: b("late_str_free"),
             skip_end: b("skip_end"),
             double_take_error: b("double_take_error"),
+            untaken_selector_error: b("untaken_selector_error"),
         }
     }
 }
@@ -750,7 +754,7 @@ fn failure_ret(ctx: &SCtx, opts: &CapiOpts, whr: &str) -> Value {
     }
     let res = classify(ctx, msg.as_deref());
     let sl = ctx.borrow().sink_len;
-    let mut v = json!({"e":"ret","res":res,"sl":sl});
+    let mut v = json!({"e":"ret","res":res,"sl":sl,"cmsg":msg});
     if res == "err:other" {
         v["msg"] = json!(msg);
     }
@@ -1009,7 +1013,17 @@ pub fn run_capi(cfg: &Value, input: &[u8], cuts: &[usize], opts: &CapiOpts) -> V
     let ctx = new_ctx(fail_at, full, opts.late_str_free);
     // a stale message of an earlier run on this thread must not be attributed to this one
     free_raw(raw_of(lol_html_take_last_error()));
+    if opts.untaken_selector_error {
+        let bad = "div[";
+        let p = unsafe { lol_html_selector_parse(cp(bad), bad.len()) };
+        push(&ctx, json!({"e":"api","op":"selector_parse_untaken","r": if p.is_null() { "NULL" } else { "ptr" }}));
+        if !p.is_null() { unsafe { lol_html_selector_free(p) }; }
+    }
     run_inner(cfg, input, cuts, opts, &ctx);
+    if opts.untaken_selector_error {
+        // leave the thread's slot clean for the next run of this process
+        free_raw(raw_of(lol_html_take_last_error()));
+    }
     let (obtained, freed, live) = {
         let c = ctx.borrow();
         (c.strs_obtained, c.strs_freed, c.live)
